@@ -37,6 +37,16 @@ def rsOp (op : String) (args : List String) : Option String :=
     match checkRoots js w m with
     | some b => some (if b then "1" else "0")
     | none => some "ERR AssertionError"
+  | "rs.reg", [d] => do
+    -- the register (parity[0], parity[1], parity[2]) after the loop of `generate` has consumed the octets `d` (any length)
+    let d ← hexToBytes d
+    let p := parity d
+    some s!"{p.1} {p.2.1} {p.2.2}"
+  | "rs.fix", [s] => do
+    -- the register a loop pass with feedback symbol `s` leaves unchanged, and the message octet that does it
+    let s ← s.toNat?
+    let p := fixOf s
+    some s!"{p.1} {p.2.1} {p.2.2} {fixSym s}"
   | _, _ => none
 
 end Dmr.Driver
